@@ -4,6 +4,7 @@
 // every read-only accessor, application payload decoders, clone, destruction.
 // Stubs: traffic generator + wire faults (bit flips, boundary bytes, truncation, junk, garbage), the simulated disk
 // (flipped stored bytes, caplen/len disagreement, truncation, EIO, short reads), allocator ledger, basic-block counter.
+#include <signal.h>
 #include "kernel.hpp"
 #include "codec.hpp"
 #include "gen.hpp"
@@ -19,7 +20,10 @@ extern "C" __attribute__((used)) const char* __asan_default_options() { return "
 extern "C" __attribute__((used)) const char* __ubsan_default_options() { return "print_stacktrace=1:halt_on_error=1"; }
 
 static volatile uint64_t g_steps = 0;
-extern "C" void __sanitizer_cov_trace_pc() { ++g_steps; }
+// hard cap on the basic blocks one plan may execute (far above every budget the oracle checks afterwards): a read that never returns - the budget
+// checks only see calls that come back - ends the run with SIGXCPU after a few seconds of simulated work instead of the wall-clock watchdog
+static volatile uint64_t g_hard_limit = 0;
+extern "C" void __sanitizer_cov_trace_pc() { if (++g_steps > g_hard_limit && g_hard_limit) { g_hard_limit = 0; raise(SIGXCPU); } }
 
 // every layer class constructible from (buffer, size) - the quantifier of the property names them all, the capture path reaches only those a
 // lower layer dispatches to
@@ -114,6 +118,7 @@ struct WireEngine : Engine {
         }
         for (auto& f : faults) if (f != "clean") { any_fault = true; st.inc("fault.wire." + f.substr(0, f.find_first_of("-@_+x0123456789"))); }
         // ---- read through the real capture path
+        struct HardLimit { HardLimit(size_t nrec) { g_hard_limit = g_steps + 600000000ULL + 40000000ULL * (nrec + 1); } ~HardLimit() { g_hard_limit = 0; } } hard_limit(frames.size());
         uint64_t accepted = 0, inspected_faulted = 0, rejected = 0, budget_checks = 0; inspect::Counters ic; uint64_t max_ratio = 0;
         std::string exc;
         try {
